@@ -188,3 +188,9 @@ def check_resolution_field(ctx, r):
         return
     if w is not None:
         fail(r, ctx, f, f.node, f"on the line {w[0]!r} the Resolution recogniser captures {w[1]!r}, which is not a digit string", witness=w[0])
+    # the written value reaches the constructor (and so the positive-resolution guard) on every path: stored unconditionally under its
+    # own key from the first matching line, MissingRequiredField when absent (C10's per-field flow, for this one field)
+    from .C10 import check_field_flow
+    gname = next((n for n in mod.assigns if ctx.ev.global_value(mod, n) is table), None)
+    r.inst("resolution: kwargs['resolution'] = int(first matching line's digits), unconditionally; absent -> MissingRequiredField")
+    check_field_flow(ctx, r, r, f, ctx.summary(f), specs, ("gvar", f"chartparse.metadata.{gname}"), only={"resolution"})
